@@ -96,6 +96,22 @@ def Op.seeds : Op → Bool
   | .srand48 _ | .r48init _ => true
   | _ => false
 
+/-- the call reads or writes the file-static `staticState` (lrand48, drand48, srand48); every other
+entry point works on the caller's array / the `Rand48` object only -/
+def Op.touchesStat : Op → Bool
+  | .lrand48 | .drand48 | .srand48 _ => true
+  | _ => false
+
+/-- `Rand48` member call -/
+def Op.isMember : Op → Bool
+  | .r48init _ | .r48nextb | .r48nexti | .r48nextf => true
+  | _ => false
+
+/-- the values returned by the calls of one stream of a call sequence, in call order (`keep` selects the
+stream, e.g. `fun op => !Op.touchesStat op` = the calls on the caller's array / `Rand48` object) -/
+def outsOf (keep : Op → Bool) (ops : List Op) (w : World) : List Out :=
+  (((run ops w).2.zip ops).filter (fun p => keep p.2)).map (·.1)
+
 /-- the 32-bit LCG of Rand32 -/
 def lcg32 (x : Nat) : Nat := (1664525 * x + 1013904223) % 4294967296
 
